@@ -257,7 +257,12 @@ def r3_lookup_chain(ctx: Ctx) -> None:
     deleg_v, own_v = f"self.parent.value_for({sym})", f"self[{sym}]"
     ctx.check({v for v, _c in vff} == {deleg_v, own_v}, "Scope.value_for:delegation", f"the only results are this scope's own entry and the parent's answer for the same name; found: {show(vff)}")
     atoms = ["self.parent", f"{sym} in self.symbols", f"{sym} in self.code_symbols"]
-    table = possible_values(vff, atoms)
+    try:
+        from ..facts import value_table
+
+        table = value_table(vf, atoms)  # one path per truth assignment: exact also when a return is reached through several branches
+    except AnalysisError:
+        table = possible_values(vff, atoms)
     ok_local = ok_root = True
     for (parent, in_sym, in_code), vals in table.items():
         want = {deleg_v} if (parent and not (in_sym or in_code)) else {own_v}
@@ -300,8 +305,14 @@ def r3_lookup_chain(ctx: Ctx) -> None:
 
 
 def get_table_own_first(gt) -> bool:
-    from ..facts import has_cond
+    from ..facts import has_cond, value_table
 
+    try:
+        tb = value_table(gt, ["self.table is None", "self.parent"])
+        return all((vals == {"self.table"}) if not none else (all(re.fullmatch(r"self\.parent\.get_table\([^()]*\)", v) for v in vals) if parent else vals == {"None"})
+                   for (none, parent), vals in tb.items())
+    except AnalysisError:
+        pass
     f = return_facts(gt)
     own = [(v, c) for v, c in f if v == "self.table"]
     par = [(v, c) for v, c in f if re.fullmatch(r"self\.parent\.get_table\([^()]*\)", v)]
